@@ -247,7 +247,7 @@ fn gen_trace_in(r: &mut Rng, kind: PoolKind, n: usize, segmented_tls: bool, prob
         .map(|(c, s)| {
             let ck = match kind {
                 PoolKind::Tcp => *r.pick(&[ConnKind::TcpOnly, ConnKind::TcpOnly, ConnKind::Http1]),
-                PoolKind::Tls => *r.pick(&[ConnKind::Tls, ConnKind::Tls, ConnKind::Tls, ConnKind::Http1]),
+                PoolKind::Tls => *r.pick(&[ConnKind::Tls, ConnKind::Tls, ConnKind::Tls, ConnKind::TlsReversed, ConnKind::Http1]),
                 PoolKind::Http => *r.pick(&[ConnKind::Http1, ConnKind::Http1, ConnKind::Http2, ConnKind::TcpOnly]),
             };
             conn::build(r, ck, *c, *s, &o)
@@ -298,7 +298,34 @@ fn gen_trace_in(r: &mut Rng, kind: PoolKind, n: usize, segmented_tls: bool, prob
     let lens: Vec<usize> = conns.iter().map(|c| c.steps.len()).collect();
     let mode = *r.pick(&[MergeMode::Uniform, MergeMode::RoundRobin, MergeMode::Bursts]);
     let order = conn::merge_order(r, &lens, mode);
-    conn::to_trace(&conns, &order)
+    let mut trace = conn::to_trace(&conns, &order);
+    // fault "duplication", one trace in three: every packet of one connection is captured a second time after the
+    // trace has ended (a mirror port that feeds the capture twice, a replayed capture file): same SYN, same data
+    // - or only some of them: the SYN and the data segments but not the SYN+ACK, the data alone, a random half
+    if r.chance(1, 3) && !trace.is_empty() {
+        let reversed: Vec<usize> = (0..conns.len()).filter(|i| matches!(conns[*i].kind, ConnKind::TlsReversed | ConnKind::Http1Reversed)).collect();
+        let ci = if !reversed.is_empty() && r.chance(1, 2) { *r.pick(&reversed) } else { r.usize_below(conns.len()) };
+        let base = trace.last().map(|p| p.t).unwrap_or(0) + 1_000_000;
+        let pattern = r.below(4);
+        let mut dup: Vec<Timed> = vec![];
+        for (k, p) in trace.iter().filter(|p| p.conn == ci).enumerate() {
+            let seg = &conns[ci].steps[k.min(conns[ci].steps.len() - 1)].seg;
+            let (syn, ack, data) = (seg.flags & pkt::SYN != 0, seg.flags & pkt::ACK != 0, !seg.payload.is_empty());
+            let take = match pattern {
+                0 => true,
+                1 => (syn && !ack) || data,
+                2 => data,
+                _ => r.chance(1, 2),
+            };
+            if take {
+                let mut q = p.clone();
+                q.t = base + k as u64 * 1000;
+                dup.push(q);
+            }
+        }
+        trace.extend(dup);
+    }
+    trace
 }
 
 /// Population trace: `n` connections that are all open at the same time — every connection's k-th packet
